@@ -161,9 +161,9 @@ class ExactPartition(FunctionContract):
 
 
 CG = "prtpy/partitioning/complete_greedy.py::anytime"
-cg_difference = ExactPartition("cg", CG, "difference", shapes_quick=[(n, k) for n in (1, 2, 3, 4) for k in (1, 2, 3)], shapes_thorough=[(n, k) for n in range(1, 6) for k in (1, 2, 3)])
-cg_minmax = ExactPartition("cg", CG, "min-max", shapes_quick=[(n, k) for n in (1, 2, 3, 4) for k in (2, 3)], shapes_thorough=[(n, k) for n in range(1, 6) for k in (2, 3)])
-cg_maxmin = ExactPartition("cg", CG, "max-min", shapes_quick=[(n, k) for n in (1, 2, 3, 4) for k in (1, 2, 3)], shapes_thorough=[(n, k) for n in range(1, 6) for k in (1, 2, 3)])
+cg_difference = ExactPartition("cg", CG, "difference", shapes_quick=[(n, k) for n in (1, 2, 3, 4) for k in (1, 2, 3) if (n, k) != (4, 3)], shapes_thorough=[(n, k) for n in range(1, 6) for k in (1, 2, 3)])
+cg_minmax = ExactPartition("cg", CG, "min-max", shapes_quick=[(n, k) for n in (1, 2, 3, 4) for k in (2, 3) if (n, k) != (4, 3)], shapes_thorough=[(n, k) for n in range(1, 6) for k in (2, 3)])
+cg_maxmin = ExactPartition("cg", CG, "max-min", shapes_quick=[(n, k) for n in (1, 2, 3, 4) for k in (1, 2, 3) if (n, k) != (4, 3)], shapes_thorough=[(n, k) for n in range(1, 6) for k in (1, 2, 3)])
 
 
 class NoObjective(ExactPartition):
